@@ -563,23 +563,42 @@ int KSI_TreeBuilder_close(KSI_TreeBuilder *builder) {
 
 	if (builder->rootNode == NULL) {
 		size_t i;
+		KSI_TreeNode *first = NULL;
 
-		/* Finalize the forest of complete binary trees into a single tree. */
+		/* Finalize the forest of complete binary trees into a single tree. The stack is
+		 * left as it is until all the joins have succeeded. */
 		for (i = 0; i < KSI_TREE_BUILDER_STACK_LEN; i++) {
 			KSI_TreeNode *node = builder->stack[i];
-			builder->stack[i] = NULL;
 
 			if (node == NULL) continue;
 
 			if (root == NULL) {
 				root = node;
+				first = node;
 			} else {
 				res = KSI_TreeNode_join(builder->ctx, builder->hsr, node, root, &tmp);
-				if (res != KSI_OK) goto cleanup;
+				if (res != KSI_OK) {
+					/* Undo the joins made so far: release only the intermediate
+					 * parents, the sub trees stay in the stack. */
+					while (root != first) {
+						KSI_TreeNode *right = root->rightChild;
+						root->leftChild->parent = NULL;
+						right->parent = NULL;
+						root->leftChild = NULL;
+						root->rightChild = NULL;
+						KSI_TreeNode_free(root);
+						root = right;
+					}
+					goto cleanup;
+				}
 
 				root = tmp;
 				tmp = NULL;
 			}
+		}
+
+		if (root != NULL) {
+			memset(builder->stack, 0, sizeof(builder->stack));
 		}
 	} else {
 		KSI_pushError(builder->ctx, res = KSI_INVALID_STATE, "The tree has already been closed.");
